@@ -228,4 +228,23 @@ instance instDecAgreesAll : ∀ (os : List SOut) (ss : List POut), Decidable (ag
   | [], _ :: _ => isFalse (fun h => h)
   | _ :: _, [] => isFalse (fun h => h)
 
+/-- The client changes its session state: the statement sent along (and everything after it)
+    must be compiled with these aliases / this config. -/
+def PSpec.clientState (p : PSpec) (cs : Option (Nat × Nat)) : PSpec :=
+  match cs with
+  | none => p
+  | some (a, v) =>
+    if p.inTx then { p with cur := { p.cur with aliases := a, config := v } }
+    else PSpec.out { p.base with aliases := a, config := v }
+
+def PSpec.stepC (p : PSpec) (e : CEv) : PSpec × OCls := (p.clientState e.cs).step e.ev
+
+def PSpec.runC (p : PSpec) : List CEv → PSpec × List POut
+  | [] => (p, [])
+  | e :: es =>
+    let p0 := p.clientState e.cs
+    let (p', o) := p0.step e.ev
+    let (p'', os) := PSpec.runC p' es
+    (p'', { cls := o, exposed := p0.exposed, healthy := p0.healthy } :: os)
+
 end EdbVerif.Tx
